@@ -303,7 +303,43 @@ fn bad_numeric() -> BoxedStrategy<String> {
     .boxed()
 }
 
+/// Pairs / triples that differ only in their last significant digits, 14..20 digits long (with
+/// an optional decimal point somewhere inside): equal under any fixed-precision shortcut
+/// (f64 holds ~15.95 digits, u64 19), different as decimal numbers.
+fn near_equal_case(real: bool) -> BoxedStrategy<Case> {
+    ("[1-9][0-9]{13,19}", 0u8..10, 0u8..10, 0u8..3, 0usize..20, any::<bool>(), proptest::collection::vec(bad_numeric(), 0..2))
+        .prop_map(move |(base, d1, d2, back, dot_at, neg, bad)| {
+            let digits: Vec<u8> = base.bytes().collect();
+            let n = digits.len();
+            let vary = |d: u8, k: usize| -> Vec<u8> {
+                let mut v = digits.clone();
+                let p = n - 1 - k.min(n - 1);
+                v[p] = b'0' + d;
+                v
+            };
+            let render = |v: Vec<u8>| -> String {
+                let mut s = String::from_utf8(v).unwrap();
+                if real && dot_at >= 1 && dot_at < n {
+                    s.insert(dot_at, '.');
+                }
+                if neg {
+                    s.insert(0, '-');
+                }
+                s
+            };
+            let a = render(digits.clone());
+            let b = render(vary(d1, back as usize));
+            let c = render(vary(d2, (back as usize + 1) % 3));
+            Case::Num { real, a, b, c, bad }
+        })
+        .boxed()
+}
+
 fn num_case(real: bool) -> BoxedStrategy<Case> {
+    prop_oneof![6 => num_case_general(real), 1 => near_equal_case(real)].boxed()
+}
+
+fn num_case_general(real: bool) -> BoxedStrategy<Case> {
     (digit_string(), digit_string(), digit_string(), digit_string(), spell(), spell(), spell(), any::<bool>(), proptest::collection::vec(bad_numeric(), 0..3))
         .prop_map(move |(i1, f1, i2, f2, sa, sb, sc, indep, bad)| {
             let a = spell_out(&i1, &f1, &sa, real);
